@@ -262,6 +262,7 @@ def directed_equal():
 
 def search(ctx):
     G.check_generate_ite(ctx)
+    G.check_generate_arith(ctx, thorough=(ctx.tier == 'thorough'))
     rng = ctx.rng('search')
     directed = directed_equal()
     for k in range(-len(directed), ctx.scale(400, 5000)):
